@@ -632,7 +632,14 @@ def main():
                         d["blobs"] = 7.0 * ids + 3.0
                     sm.update_current(d)
                     sm.commit_current_to_history()
-                    stub = types.SimpleNamespace(state=sm, config=types.SimpleNamespace(blobs_dtype=float if blobs else None))
+                    # a real (never run) Sampler whose state container is replaced by the hand-made history: the posterior code
+                    # may use any helper method of its own class
+                    from tempest import Sampler as _Sampler
+
+                    _smp = _Sampler(prior_transform=lambda u_: u_, log_likelihood=(lambda x_: (0.0, 1.0)) if blobs else (lambda x_: 0.0),
+                                    n_dim=2, n_particles=4, blobs_dtype=float if blobs else None)
+                    stub = _smp._core
+                    stub.state = sm
                     seen = {}
                     real = tools.systematic_resample
 
@@ -644,8 +651,7 @@ def main():
                     try:
                         with Patched(np, u0):
                             try:
-                                ret = SamplerCore.compute_posterior(stub, resample=True, return_blobs=blobs,
-                                                                    trim_importance_weights=False)
+                                ret = stub.compute_posterior(resample=True, return_blobs=blobs, trim_importance_weights=False)
                                 err = False
                             except Exception as ex:
                                 ret, err = repr(ex), True
